@@ -15,7 +15,11 @@ func inModule(fn *ssa.Function) bool {
 func instrCount(fn *ssa.Function) int {
 	n := 0
 	for _, b := range fn.Blocks {
-		n += len(b.Instrs)
+		for _, in := range b.Instrs {
+			if _, ok := in.(*ssa.DebugRef); !ok {
+				n++
+			}
+		}
 	}
 	return n
 }
@@ -215,6 +219,8 @@ func (e *Exec) builtin(fr *Frame, st *State, x *ssa.Call, b *ssa.Builtin) (Value
 			return e.def(SInt, App(SInt, "sl-cap", a)), true
 		case *types.Basic:
 			return e.def(SInt, App(SInt, "slen", a)), true
+		case *types.Map:
+			return e.def(SInt, e.mapLen(st, a, args[0].Type().Underlying().(*types.Map))), true
 		case *types.Array:
 			return IntLit(args[0].Type().Underlying().(*types.Array).Len()), true
 		case *types.Pointer:
@@ -229,7 +235,11 @@ func (e *Exec) builtin(fr *Frame, st *State, x *ssa.Call, b *ssa.Builtin) (Value
 		return e.doAppend(fr, st, x), true
 	case "copy":
 		return e.doCopy(fr, st, x), true
-	case "delete", "clear":
+	case "delete":
+		e.mapDelete(fr, st, args[0], args[1])
+		return nil, true
+	case "clear":
+		e.mapClear(fr, st, args[0])
 		return nil, true
 	case "panic":
 		return nil, false
